@@ -74,9 +74,11 @@ Print Assumptions C11_table_accounted.
 
 (* Beyond the named fault classes: every goroutine the library starts in the anchor files
    has an effective recover on its entry function (since 6fc72b7 also the six client
-   send/receive loops) — except four, for which the table shows there is none
+   send/receive loops) — except six, for which the table shows there is none
    (C11_goroutine_entries_refuted is exact): the socket accept loop, the mock transport's
-   goroutine, and the reverse provider's dispatch goroutines.  C11_unprotected_entries_covered
+   goroutine, the reverse provider's dispatch goroutines, and (since 4b1f091) the two
+   goroutines in which the fasthttp client transport runs the third-party client and releases
+   an abandoned request — no hprose code, no fault class of the property raises a panic there.  C11_unprotected_entries_covered
    shows that every fault cell raised on one of them is stopped by a frame further in. *)
 Theorem C11_goroutine_entries_partial : forall g, In g known_goroutines -> unprotected g = false ->
   entry_protected table (snd g) = true.
@@ -253,5 +255,5 @@ Proof. vm_compute. split; reflexivity. Qed.
 Example protected_goroutines_exist :
   let g := ("socket.Handler.Serve", "socket.Handler.receive") in
   In g known_goroutines /\ unprotected g = false /\ entry_protected table (snd g) = true /\
-  length known_goroutines = 21%nat /\ length unprotected_goroutines = 4%nat.
+  length known_goroutines = 23%nat /\ length unprotected_goroutines = 6%nat.
 Proof. vm_compute. repeat split; try reflexivity. do 2 right. left. reflexivity. Qed.
